@@ -81,6 +81,9 @@ func c08GenStep(r *rand.Rand, prev []c08Step) c08Step {
 	if len(prev) > 0 && r.Intn(3) == 0 { // save an existing command string again
 		s.Cmd = prev[r.Intn(len(prev))].Cmd
 	}
+	if r.Intn(8) == 0 { // a command string the main database already has (the notebook entry must still be merged and found)
+		s.Cmd = ints([]string{"tar -xzf a.tgz", "df -h"}[r.Intn(2)])
+	}
 	simple := []string{"backup", "home dir", "docker", "日本", "x-y", "a.b", "Go"}
 	for i, n := 0, r.Intn(3); i < n; i++ {
 		s.Keys = append(s.Keys, ints(simple[r.Intn(len(simple))]))
@@ -90,6 +93,30 @@ func c08GenStep(r *rand.Rand, prev []c08Step) c08Step {
 	}
 	if r.Intn(3) == 0 {
 		s.Platforms = intsList([][]string{{"linux"}, {"linux", "macos"}, {"windows"}}[r.Intn(3)])
+	}
+	if len(prev) > 0 && r.Intn(4) == 0 { // the previous save of the same kind again with exactly ONE field changed
+		var cands []c08Step
+		for _, p := range prev {
+			if p.Kind == "save" {
+				cands = append(cands, p)
+			}
+		}
+		if len(cands) > 0 {
+			p := cands[r.Intn(len(cands))]
+			s = c08Step{Kind: "save", Cmd: p.Cmd, Desc: p.Desc, Keys: p.Keys, Niche: p.Niche, Platforms: p.Platforms, Pipeline: p.Pipeline}
+			switch r.Intn(5) {
+			case 0:
+				s.Platforms = intsList([][]string{{"linux", "macos"}, {"windows"}, {"linux"}, nil}[r.Intn(4)])
+			case 1:
+				s.Keys = append(append([][]int{}, p.Keys...), ints("extra"))
+			case 2:
+				s.Niche = ints([]string{"git", "other"}[r.Intn(2)])
+			case 3:
+				s.Pipeline = !p.Pipeline
+			case 4:
+				s.Desc = ints("changed description")
+			}
+		}
 	}
 	return s
 }
